@@ -16,7 +16,7 @@ fn int_lit(r: &mut R) -> J {
     let pool: [i64; 14] = [0, 1, -1, 2, 3, 7, -5, 10, 63, 64, 100, i64::MAX, i64::MIN, i64::MAX - 1];
     lit(jint(pool[r.gen_range(0..pool.len())]))
 }
-fn real_lit(r: &mut R) -> J { let pool = [0.0, 1.0, 1.5, -0.25, 2.5, 0.5, 3.0, -2.0]; lit(jreal(pool[r.gen_range(0..pool.len())])) }
+fn real_lit(r: &mut R) -> J { let pool = [0.0, 1.0, 1.5, -0.25, 2.5, 0.5, 3.0, -2.0, -0.0, 0.0]; lit(jreal(pool[r.gen_range(0..pool.len())])) }
 fn text_lit(r: &mut R) -> J { let pool = ["", "a", "b", "aa", "Ab", "12", "-3", "1.5", "x y", "true", "é"]; lit(json!({"t": "text", "s": pool[r.gen_range(0..pool.len())].chars().map(|c| c as u32).collect::<Vec<_>>()})) }
 fn bool_lit(r: &mut R) -> J { lit(json!({"t": "bool", "v": r.gen_bool(0.5)})) }
 
@@ -104,7 +104,10 @@ fn gen_real(r: &mut R, d: u32) -> J {
 fn gen_bool(r: &mut R, d: u32) -> J {
     if d == 0 || r.gen_bool(0.15) { return if r.gen_bool(0.2) { lit(null()) } else { bool_lit(r) }; }
     let cmp = (pick(r, &["=", "!=", "<", "<=", ">", ">="]));
-    match r.gen_range(0..14) {
+    match r.gen_range(0..16) {
+        // REAL against REAL (the two zeros are one value: -0.0 from a literal, from 0.0 * negative, from - 0.0), also through IN
+        14 => json!({"op": "cmp", "f": cmp, "a": gen_real(r, d - 1), "b": gen_real(r, d - 1)}),
+        15 => json!({"op": "in", "neg": r.gen_bool(0.5), "a": gen_real(r, d - 1), "vs": (0..r.gen_range(1..4)).map(|_| gen_real(r, 0)).collect::<Vec<_>>()}),
         10 => json!({"op": "cmp", "f": cmp, "a": gen_ts(r, d - 1), "b": gen_ts(r, d - 1)}),
         11 => { let t = pick(r, &["2021-03-04 05:06:07", "2021-03-04 05:06:08", "2021-3-4", "never"]);
                 json!({"op": "cmp", "f": cmp, "a": gen_ts(r, d - 1), "b": lit(json!({"t": "text", "s": t.chars().map(|c| c as u32).collect::<Vec<_>>()}))}) }
